@@ -314,7 +314,45 @@ def F1(ctx: Ctx) -> RuleResult:
             if cb not in covered:
                 r.fail(f'{cb}:uncovered', f'grammar rule {cb} is reachable but has no entry in the intended-tree table', 'src/hpl/grammar.py')
     _skeletons(ctx, r)
+    _converters(ctx, r)
     return r
+
+
+def _converters(ctx: Ctx, r: RuleResult):
+    """converters of sequence-valued child fields are element-wise maps: they keep order, multiplicity and length"""
+    for cname, fname in (('HplSet', 'values'), ('HplFunctionCall', 'arguments'), ('HplSpecification', 'properties')):
+        c = ctx.model.cls(cname, 'F1')
+        f = c.field(fname)
+        if f is None:
+            raise AnalysisError('F1', f'{cname}.{fname} not found')
+        conv = f.kwargs.get('converter')
+        key = f'{cname}.{fname}:converter'
+        if conv is None:
+            r.ok(f'{cname}.{fname}: stored as given')
+            continue
+        ct = ctx.ev.expr(conv, _State(), f.cls.module, None, 0)
+        if ct == Ext('tuple'):
+            r.ok(f'{cname}.{fname}: tuple()')
+            continue
+        fi = ctx.ev.callee(ct) if isinstance(ct, (FuncRef, BoundMethod)) else None
+        if fi is None:
+            r.fail(key, f'converter {ast.unparse(conv)} is not a recognised element-wise map', f.where)
+            continue
+        val = Sym('values')
+        outs = ctx.ev.run(fi, {fi.params()[0]: val})
+        good = False
+        for o in outs:
+            v = o.value
+            if isinstance(v, Call) and isinstance(v.func, Ext) and v.func.name in ('tuple', 'list') and len(v.args) == 1:
+                inner = v.args[0]
+                if inner == val:
+                    good = True
+                if isinstance(inner, Comp) and len(inner.gens) == 1 and inner.gens[0][1] == val and not inner.gens[0][2]:
+                    good = True
+        if good and len(outs) == 1:
+            r.ok(f'{cname}.{fname}: element-wise converter {fi.name}')
+        else:
+            r.fail(key, f'converter {fi.name} is not an element-wise map over all elements in order ({[str(o.value)[:70] for o in outs]}): elements may be dropped, merged or reordered', fi.where)
 
 
 def _event_disjunction(ctx: Ctx, r: RuleResult):
